@@ -46,6 +46,7 @@ type Profile struct {
 	LateAdd        bool
 	Epilogues      []string
 	BuiltinPct     int  // percent of bars that also carry 1-2 of the library's own decorators
+	DisabledPct    int  // percent of decorators switched off through decor.OnCondition(d, false)
 	EwmaPct        int  // percent of decorators that also implement EwmaDecorator
 	NoDecorPct     int  // percent of bars without any decorator (besides the row tag)
 	ChurnW         int  // weight of the macro "finish a bar, two render cycles, add the next bar" (one leaves, one joins between two frames)
@@ -103,6 +104,7 @@ func genDecorSpec(t *rapid.T, prof *Profile, sync bool, side int) engine.DecorSp
 			d.Wrap = append(d.Wrap, rapid.SampledFrom([]string{"oncomplete", "onabort", "meta", "oncompletemeta", "onabortmeta", "ocoa", "ocmoam", "oncomplete-e", "onabort-e", "ocoa-e", "cond", "pred", "condelse"}).Draw(t, "wrap"))
 		}
 	}
+	d.Disabled = pct(t, prof.DisabledPct, "disabled")
 	d.Listener = pct(t, prof.Listeners, "listener")
 	d.Ewma = pct(t, prof.EwmaPct, "ewmadecor")
 	return d
@@ -230,6 +232,9 @@ func genSetup(t *rapid.T, prof *Profile) *engine.Scenario {
 	sc.Cfg.Delay = pct(t, prof.Delay, "delay")
 	sc.Cfg.Notifier = pct(t, prof.Notifier, "notifier")
 	sc.Cfg.UserWG = pct(t, prof.UserWG, "userwg")
+	if sc.Cfg.Refresh == "manual" && pct(t, 15, "alsoauto") {
+		sc.Cfg.AlsoAuto = rapid.IntRange(1, 2).Draw(t, "alsoautoorder")
+	}
 	succOf := map[int]bool{}
 	for i := 0; i < nb; i++ {
 		sc.Bars = append(sc.Bars, genBarSpec(t, prof, i, succOf))
@@ -237,9 +242,17 @@ func genSetup(t *rapid.T, prof *Profile) *engine.Scenario {
 	if pct(t, prof.Faults, "fault") {
 		i := rapid.IntRange(0, nb-1).Draw(t, "faultbar")
 		k := rapid.IntRange(1, 6).Draw(t, "faultk")
-		if rapid.IntRange(0, 3).Draw(t, "faultext") == 0 {
+		switch rapid.IntRange(0, 4).Draw(t, "faultkind") {
+		case 0:
 			sc.Bars[i].ExtErrAt = k
-		} else {
+		case 1:
+			if sc.Cfg.PtyRows == 0 {
+				sc.OutErrAt = k
+				sc.OutShort = rapid.Bool().Draw(t, "faultshort")
+			} else {
+				sc.Bars[i].FillErrAt = k
+			}
+		default:
 			sc.Bars[i].FillErrAt = k
 		}
 	}
@@ -275,14 +288,54 @@ func genSteps(t *rapid.T, prof *Profile, sc *engine.Scenario) []engine.Step {
 	}
 	var steps []engine.Step
 	nextAdd := 0
+	ticksSinceTerm := make([]int, nb) // render cycles requested since the bar finished
+	everLive := make([]bool, nb)      // some other bar was running at every tick since it finished (no early refresh)
+	noted := 0
+	// note brings the bookkeeping of the late-successor rule up to date with the
+	// steps appended so far
+	note := func() {
+		for _, st := range steps[noted:] {
+			for i, g := range gb {
+				if !g.added || !g.m.Terminal() {
+					ticksSinceTerm[i] = 0
+					everLive[i] = true
+					continue
+				}
+				if st.Op == "tick" {
+					ticksSinceTerm[i]++
+				}
+				otherLive := false
+				for j, h := range gb {
+					if j != i && h.added && !h.m.Terminal() && sc.Bars[j].QueueAfter < 0 {
+						otherLive = true
+					}
+				}
+				if !otherLive {
+					everLive[i] = false
+				}
+			}
+		}
+		noted = len(steps)
+	}
 	add := func() {
+		note()
 		if nextAdd < nb {
 			if a := sc.Bars[nextAdd].QueueAfter; a >= 0 && sc.Cfg.Refresh != "manual" && openFinding("C17-late-successor") && gb[a].m.Terminal() {
-				// auto modes: the predecessor's terminal frames are not clocked by the
-				// program, so "created after the predecessor was flushed" cannot be
-				// ruled out any other way
-				sc.Bars[nextAdd].QueueAfter = -1
-				excludedKnown++
+				// auto modes: the predecessor's terminal frames are in general not
+				// clocked by the program, so "created after the predecessor was
+				// flushed" cannot be ruled out — except with injected ticks while some
+				// other bar is still running (no early refresh then) and fewer than
+				// two render cycles since the predecessor finished
+				otherLive := false
+				for j, g := range gb {
+					if j != a && g.added && !g.m.Terminal() && sc.Bars[j].QueueAfter < 0 {
+						otherLive = true
+					}
+				}
+				if !(sc.Cfg.Refresh == "autoinj" && otherLive && ticksSinceTerm[a] < 2 && everLive[a]) {
+					sc.Bars[nextAdd].QueueAfter = -1
+					excludedKnown++
+				}
 			}
 			steps = append(steps, engine.Step{Op: "add", Bar: nextAdd})
 			gb[nextAdd].added = true
@@ -531,6 +584,7 @@ func genSteps(t *rapid.T, prof *Profile, sc *engine.Scenario) []engine.Step {
 			}
 			x -= c.w
 		}
+		note()
 	}
 	return steps
 }
